@@ -294,6 +294,12 @@ class Builder:
             terms = tuple(self.build(x) for x in t["terms"])
             vs = frozenset(Variable(n, dom_of(d)) for n, d in t["vars"])
             return Contraction(ASSOC[t["red"]], ASSOC[t["bin"]], vs, *terms)
+        if c == "Integ":
+            from funsor.integrate import Integrate
+            m = self.build(t["measure"])
+            f = self.build(t["integrand"])
+            vs = frozenset(Variable(n, dom_of(d)) for n, d in t["vars"])
+            return Integrate(m, f, vs)
         if c == "Delta":
             from funsor.delta import Delta
             terms = tuple((n, (self.build(p), self.build(ld))) for n, p, ld in t["terms"])
